@@ -50,8 +50,8 @@ func (v *StructSchema) Merge(other *StructSchema, others ...*StructSchema) *Stru
 // The new schema shares references to the transforms, tests and inner schema.
 func (v *StructSchema) cloneShallow() *StructSchema {
 	new := &StructSchema{
-		postTransforms: v.postTransforms,
-		tests:          v.tests,
+		postTransforms: append([]p.PostTransform(nil), v.postTransforms...),
+		tests:          append([]p.Test(nil), v.tests...),
 		required:       v.required,
 		schema:         v.schema,
 	}
